@@ -96,6 +96,12 @@ def gen(rng, tier, quarantine=()):
             ops.append({"op": "clock", "mode": rng.choice(["fast", "slow"])})
         elif r < 0.6:
             ops.append({"op": "gc", "tape": [], "faults": {}})
+        elif r < 0.66 and "no-inplace" not in quarantine:
+            # tooled in place in the middle of the history, after probes have come and gone (the engine
+            # skips it while a probe is active on the function)
+            cands = [u for u in universe if "." not in u and u not in ("mk", "coro")]
+            if cands:
+                ops.append({"op": "tool", "fn": rng.choice(cands), "how": "inplace"})
         else:
             q = rng.choice(universe)
             ops.append({"op": "call", "fn": FN[q][0], "nargs": 1, "tape": [],
